@@ -650,7 +650,7 @@ Proof.
 Qed.
 Lemma h_rc_put_RI d v n : RI2 d -> RI2 (fst (h_rc_put d v n)).
 Proof.
-  intro H. unfold h_rc_put. destruct (v <? 7); [assumption|]. destruct (is_std_rc_name n); [assumption|].
+  intro H. unfold h_rc_put. destruct (v <? 2); [assumption|]. destruct (v <? 7); [assumption|]. destruct (is_std_rc_name n); [assumption|].
   destruct (rc_id_of_name d n); [assumption|].
   destruct (rc_create d n) as [d'|e] eqn:E; [|assumption]. cbn [fst]. eapply rc_create_RI; eassumption.
 Qed.
